@@ -91,6 +91,8 @@ def r3(chk, ctx):
             for h in tr.handlers:
                 acks = [c for c in ast.walk(h) if isinstance(c, ast.Call) and isinstance(c.func, ast.Attribute) and c.func.attr == "acknowledge"]
                 good = any(isinstance(kwarg(c, "multiple"), ast.Constant) and kwarg(c, "multiple").value is False for c in acks)
+                # going through the dispatcher's own primitive is an acknowledgement too (its shape is checked above)
+                good = good or any(norm(c.func) == "self.acknowledge" for c in acks)
                 tn = "bare" if h.type is None else norm(h.type)
                 if h.type is None or "Exception" in tn.replace("(", " ").replace(")", " ").replace(",", " ").split():
                     catch_all = True
